@@ -1,13 +1,14 @@
 #!/bin/bash
 # try_seed.sh <patch.diff> <prop> [<prop> ...] : run checks against a scratch copy of /repo with the patch applied (never touches /repo)
 patch="$1"; shift
-scratch=/tmp/verif-try-repo
+scratch=${TRY_SCRATCH:-/tmp/verif-try-repo}   # a second concurrent user sets TRY_SCRATCH (and gets its own logs / evidence dir)
+tag=$(basename "$scratch")
 cd /verif
 git -C /repo worktree remove --force "$scratch" 2>/dev/null; rm -rf "$scratch"; git -C /repo worktree prune
 git -C /repo worktree add -q --detach "$scratch" HEAD || exit 1
 git -C "$scratch" apply "$patch" || { echo "PATCH-DOES-NOT-APPLY"; git -C /repo worktree remove --force "$scratch"; exit 1; }
 for p in "$@"; do
-  VERIF_EVIDENCE_DIR=/verif/build/try-evidence VERIF_REPO="$scratch" ./check $p > /verif/build/try-$p.log 2>&1; rc=$?
-  echo "$p rc=$rc $(grep -m2 -E 'VIOLATION|INCONCLUSIVE|^OK|^  ' /verif/build/try-$p.log | cut -c1-330 | tr '\n' '|')"
+  VERIF_EVIDENCE_DIR=/verif/build/try-evidence-$tag VERIF_REPO="$scratch" ./check $p > /verif/build/try-$tag-$p.log 2>&1; rc=$?
+  echo "$p rc=$rc $(grep -m2 -E 'VIOLATION|INCONCLUSIVE|^OK|^  ' /verif/build/try-$tag-$p.log | cut -c1-330 | tr '\n' '|')"
 done
 git -C /repo worktree remove --force "$scratch"
